@@ -47,6 +47,7 @@ func dIDs(col *ap.OrderedCollection) []int {
 }
 
 func dRun(w *ndWriter, pre rValue, gotype string, pattern string) {
+	pre0 := pre
 	v := rBuild(pre, gotype)
 	e := v.Elem()
 	it := v.Interface().(ap.Item)
@@ -60,6 +61,7 @@ func dRun(w *ndWriter, pre rValue, gotype string, pattern string) {
 		w.Write(ev)
 		return post, p == ""
 	}
+	e.FieldByName("Summary").Set(reflect.ValueOf(ap.NaturalLanguageValues{{Ref: ap.NilLangRef, Value: ap.Content("v1")}}))
 	st0 := dLists(e, pre.Class)
 	// Address
 	var ret ap.ItemCollection
@@ -189,6 +191,55 @@ func dRun(w *ndWriter, pre rValue, gotype string, pattern string) {
 			post = []int{}
 		}
 		w.Write(J{"ev": "dstep", "op": "persist", "gotype": gotype, "pattern": pattern, "w": wbox, "pre": J{"box": pre}, "post": J{"box": post, "count": count}, "panic": p})
+	}
+	// Update: version 2 of message 1 is merged into every stored copy
+	verOf := func(it ap.Item) int {
+		v := 0
+		_ = ap.OnObject(it, func(o *ap.Object) error {
+			if len(o.Summary) == 1 {
+				fmt.Sscanf(string(o.Summary[0].Value), "v%d", &v)
+			}
+			return nil
+		})
+		return v
+	}
+	for wbox, col := range boxes {
+		var stored ap.Item
+		for _, it := range col.OrderedItems {
+			if strings.HasSuffix(string(it.GetLink()), "/values/1") {
+				stored = it
+			}
+		}
+		if stored == nil {
+			continue
+		}
+		pre := dIDs(col)
+		prever := verOf(stored)
+		var post []int
+		postver, idkept, merr := 0, false, ""
+		p := guard(func() {
+			newv, err := ap.UnmarshalJSON(data)
+			if err != nil {
+				panic("decode: " + err.Error())
+			}
+			ne := reflect.ValueOf(newv).Elem()
+			ne.FieldByName("ID").SetString("https://example.com/values/1")
+			ne.FieldByName("Summary").Set(reflect.ValueOf(ap.NaturalLanguageValues{{Ref: ap.NilLangRef, Value: ap.Content("v2")}}))
+			if _, err := ap.CopyItemProperties(stored, newv); err != nil {
+				merr = err.Error()
+			}
+			post = dIDs(col)
+			for _, it := range col.OrderedItems {
+				if strings.HasSuffix(string(it.GetLink()), "/values/1") {
+					postver, idkept = verOf(it), true
+				}
+			}
+		})
+		if post == nil {
+			post = []int{}
+		}
+		w.Write(J{"ev": "dstep", "op": "update", "gotype": gotype, "pattern": pattern, "class": pre0.Class, "w": wbox, "pre": J{"box": pre, "ver": prever},
+			"post": J{"box": post, "ver": postver, "idkept": idkept, "err": merr}, "panic": p})
 	}
 	final := []J{}
 	for wbox, col := range boxes {
